@@ -309,6 +309,13 @@ func isFieldLoadPlusConst(v ssa.Value, f *types.Var, k int64) bool {
 	if !ok || bo.Op != token.ADD {
 		return false
 	}
+	// the addition must be done in at least 32 bits: uint16(x)+1 wraps at 65535
+	if bt, isB := bo.Type().Underlying().(*types.Basic); isB {
+		switch bt.Kind() {
+		case types.Int8, types.Uint8, types.Int16, types.Uint16:
+			return false
+		}
+	}
 	if kv, ok := constInt(bo.Y); ok && kv == k && isFieldLoadOf(bo.X, f) {
 		return true
 	}
